@@ -216,7 +216,7 @@ pub fn compare_exact(src: &Xot, node: Node, re: &Xot, root: Node, allow_added_un
 /// the comparison for an indented serialisation: the reparsed tree may only have additional white-space-only text nodes, and
 /// none inside an element with text children, inside xml:space="preserve" scope or inside a suppressed element
 pub fn compare_indented(src: &Xot, node: Node, re: &Xot, root: Node, suppress: &[xot::NameId]) -> Option<String> {
-    fn go(src: &Xot, a: Node, re: &Xot, b: Node, preserve: bool, suppress: &[xot::NameId]) -> Option<String> {
+    fn go(src: &Xot, a: Node, re: &Xot, b: Node, preserve: bool, quiet_above: bool, suppress: &[xot::NameId]) -> Option<String> {
         // same node up to children
         let head = |x: &Xot, n: Node| -> String { node_head(x, n) };
         let strip = |s: String| s.split(' ').filter(|t| !t.starts_with("N_:")).collect::<Vec<_>>().join(" ");
@@ -229,7 +229,8 @@ pub fn compare_indented(src: &Xot, node: Node, re: &Xot, root: Node, suppress: &
         };
         let ka: Vec<Node> = src.children(a).collect();
         let kb: Vec<Node> = re.children(b).collect();
-        let mixed = ka.iter().any(|k| src.is_text(*k));
+        // "anywhere inside": an element with text children and an element of the suppress list silence their whole subtree
+        let mixed = quiet_above || ka.iter().any(|k| src.is_text(*k));
         let suppressed = match src.value(a) { Value::Element(e) => suppress.contains(&e.name()), _ => false };
         let mut j = 0;
         for k in &ka {
@@ -248,7 +249,7 @@ pub fn compare_indented(src: &Xot, node: Node, re: &Xot, root: Node, suppress: &
                     _ => return Some("children differ by more than added white space".into()),
                 }
             }
-            if let Some(why) = go(src, *k, re, kb[j], preserve_here, suppress) { return Some(why); }
+            if let Some(why) = go(src, *k, re, kb[j], preserve_here, mixed || suppressed, suppress) { return Some(why); }
             j += 1;
         }
         while j < kb.len() {
@@ -264,7 +265,7 @@ pub fn compare_indented(src: &Xot, node: Node, re: &Xot, root: Node, suppress: &
         }
         None
     }
-    go(src, node, re, root, false, suppress)
+    go(src, node, re, root, false, false, suppress)
 }
 
 /// the node itself with its namespace and attribute nodes (no children)
@@ -454,19 +455,25 @@ pub fn main_for(pid: &str) {
             // the nearest xml:space attribute decides, however many elements without one lie in between
             let j = k - BRACKET_DOCS;
             let val = |x: usize| -> Vec<(usize, String)> { match x { 0 => vec![], 1 => vec![(0, "preserve".to_string())], _ => vec![(0, "default".to_string())] } };
-            let name = pool.names[0];
+            // a, b, c and the leaves carry four different names, so that a suppress list can name exactly one level: the stream is
+            // written with indentation and no suppress list, with each of a, b, c alone in the suppress list, and without indentation
+            let no_ns: Vec<usize> = pool.names.iter().copied().filter(|n| reg.names[*n].1 == 0).collect();
+            let (na, nb, nc, nl) = (no_ns[0], no_ns[1 % no_ns.len()], no_ns[2 % no_ns.len()], no_ns[3 % no_ns.len()]);
             let leaf = |n: usize| ANode::Elem { name: n, ns: vec![], attrs: vec![], kids: vec![] };
-            let c = ANode::Elem { name, ns: vec![], attrs: val(j % 3), kids: vec![leaf(name)] };
-            let mut bk = vec![c, leaf(name)];
+            let c = ANode::Elem { name: nc, ns: vec![], attrs: val(j % 3), kids: vec![leaf(nl)] };
+            let mut bk = vec![c, leaf(nl)];
             if (j / 27) % 2 == 1 { bk.insert(1, ANode::Text("x".into())); }
-            let b = ANode::Elem { name, ns: vec![], attrs: val((j / 3) % 3), kids: bk };
-            let a = ANode::Elem { name, ns: vec![], attrs: val((j / 9) % 3), kids: vec![b, leaf(name)] };
+            let b = ANode::Elem { name: nb, ns: vec![], attrs: val((j / 3) % 3), kids: bk };
+            let a = ANode::Elem { name: na, ns: vec![], attrs: val((j / 9) % 3), kids: vec![b, leaf(nl)] };
             let t = ANode::Doc(vec![a]);
             let root = build(&mut xot, &reg, &t);
-            let queries = vec![
+            let mut queries = vec![
                 RtParams { ser: SerParams { cdata: vec![], unescaped_gt: false, suppress: vec![] }, decl: None, indent: true },
                 RtParams { ser: SerParams { cdata: vec![], unescaped_gt: false, suppress: vec![] }, decl: None, indent: false },
             ];
+            for su in [na, nb, nc] {
+                queries.push(RtParams { ser: SerParams { cdata: vec![], unescaped_gt: false, suppress: vec![su] }, decl: None, indent: true });
+            }
             run_tree(pid, &format!("c{}", k), &xot, &reg, root, &queries, &mut out, &mut stats, "xml-space-enum");
             // ... and the element <a> on its own
             if let Some(el) = xot.first_child(root) {
